@@ -33,12 +33,12 @@ EXPLANATION = ('Page search (IndexTable::find_entry and what it dispatches to): 
                'floor((position + 1) / lanes) * lanes, skip = the remainder: every path from a failed re-check); the loop runs while a whole group '
                'fits into the page, page slots * 8 is the byte length of the page type; (scalar) the reference loop ranges over start..slots, returns (entry, index) exactly '
                'under "partial key equal and entry not empty", and answers the empty entry otherwise; both routines are reached only through the '
-               'dispatching wrapper or the zero-pattern fallback.')
+               'dispatching wrapper or the zero-pattern fallback; (callers, 10*) a candidate is accepted only after the complete stored key tail was compared with the complete partial key, and after a candidate that is not the key the scan continues from the next slot.')
 ASSUMPTIONS = ['data movement of the SSE2 intrinsics as tabulated in rules/vecsem.py (Intel SDM); `psrlq` with a count above 63 yields zero while the scalar `>>` '
                'would be an overflow: address bits <= 63 is a value fact about TableId (index bits <= 40 + 14) that is not decided here',
                'lemmas L1-L3 (DESIGN.md, C19) are integer facts proved on paper; the check decides their premises on the code, not the lemmas',
                'little-endian loads (x86_64 only: the vector routine exists only there); unwind edges ignored',
-               'what is NOT decided: that callers pass start positions below the slot count; anything about the callers use of a candidate (C09, C05)']
+               'what is NOT decided: that callers pass start positions below the slot count; of the callers use of a candidate only the confirmation against the whole stored key tail and the resumption of the scan after a failed candidate are decided (rules 10*, shared with C05 / C09)']
 TRUSTED = ['rustc MIR construction (nightly)', 'pdb-facts driver', 'rules/symterm.py (provenance terms)', 'rules/vecsem.py (lane table)', 'lemmas L1-L3']
 
 ARCH_RX = re.compile(r'arch::(x86_64|x86)::_mm')
@@ -200,6 +200,11 @@ def page_bytes(b):
 
 def run(ctx):
     F = ctx.F
+    # the callers' half of the property: every candidate the page search hands out is confirmed against the whole key tail stored with
+    # the value, and a candidate that fails it sends the scan on from the next slot (a too-narrow comparison accepts the slot of
+    # another key and the real match behind it is never reached)
+    from props import C05
+    C05.key_tail_check(ctx, '10')
     vbs = [b for p, b in sorted(F.bodies.items()) if b.kind != 'closure' and any(ARCH_RX.search(n) for _, t in b.calls() for n in core.call_names(t))]
     # (part of the vector computation may sit in straight-line helpers that only the search routine calls: they are expanded
     # into its terms)
